@@ -1022,6 +1022,9 @@ func (x *Exec) bindActiveLoopVars(env *Env, st *State, fr *Frame) {
 		}
 	}
 	env.vars["inloop"] = intVal(IntLit(0))
+	if inner == nil {
+		env.vars["idx"] = intVal(IntLit(-1)) // no loop is active at this event
+	}
 	if inner != nil {
 		x.bindLoopVars(env, st, fr, inner)
 		env.vars["inloop"] = intVal(IntLit(int64(fr.loops.ordinal[inner])))
